@@ -4,6 +4,7 @@ package main
 import (
 	"fmt"
 	"math"
+	"math/big"
 	"os"
 	"strconv"
 	"strings"
@@ -403,10 +404,19 @@ func main() {
 			k := r.Intn(8)
 			var items, coq []string
 			for i := 0; i < k; i++ {
-				s := r.Pick([]string{"0", "1", "255", "256", "257", "-1", "-256", "1.9", "-1.9", "NaN", "1e3", "65535", "4294967296", "9223372036854775807", "-9223372036854775808", "Infinity", `"7"`, "true", "null", "undefined"})
+				s := r.Pick([]string{"0", "1", "255", "256", "257", "-1", "-256", "1.9", "-1.9", "NaN", "1e3", "65535", "4294967296", "9223372036854775807", "-9223372036854775808", "Infinity", `"7"`, "true", "null", "undefined",
+					"-Infinity", `"Infinity"`, "2**63", "2**63+2048", "-(2**63)-2048", "2**64+512", "1e20", "-1e20", "1e300", "2**53+2", `"1e20"`, "4294967551.5"})
 				items = append(items, s)
 				v, _ := vm.RunString("(" + s + ")")
-				coq = append(coq, lib.Z(v.ToInteger()))
+				// the element's mathematical value, truncated (ToUint8 of JavaScript: NaN and the infinities count as 0) - not a
+				// conversion that clips at the ends of int64
+				fv := v.ToNumber().ToFloat()
+				if fv != fv || math.IsInf(fv, 0) {
+					coq = append(coq, "0")
+				} else {
+					bi, _ := big.NewFloat(fv).Int(nil)
+					coq = append(coq, "("+bi.String()+")")
+				}
 			}
 			form := r.Intn(3)
 			src := "[" + strings.Join(items, ",") + "]"
